@@ -369,6 +369,11 @@ pub fn check_no_invented_versions(nodes: &[NodeH], n_ks: usize, when: &str) -> R
     Ok(())
 }
 
+/// `check_converged` for callers whose keyspace count is part of the case (the historical callers pass 2)
+pub fn check_converged_n(nodes: &[NodeH], n_ks: usize, when: &str) -> Result<(), Fail> {
+    check_converged(nodes, n_ks, when)
+}
+
 pub fn check_converged(nodes: &[NodeH], n_ks: usize, when: &str) -> Result<(), Fail> {
     check_converged_docs(nodes, n_ks, when)?;
     // sensitivity experiments only: lets one see whether the document comparison alone catches a change
